@@ -35,6 +35,8 @@ CONSTANTS
     MaxRestarts, MaxFaults, MaxTurns,
     Others,             \* the other pool operators
     RecOff, RetBack, NextOff,   \* the offsets the signer code applies (current code: +1, -1 (RetBack = 1), +0)
+    EpochRechecked,     \* TRUE: the cycle is abandoned when the second read of the time point shows another epoch
+                        \*       (proposed fix); FALSE: current code
     MarkFirst,          \* TRUE: beacon marked as signed before the publication (mutant); FALSE: current code
     SaveFirst           \* TRUE: initializer saved before the registration call (mutant); FALSE: current code
 
@@ -139,9 +141,11 @@ TickUnregFetch(f) ==
 (* the stake distribution is stored, the epoch service is informed                                *)
 SaveStakes ==
     /\ pc = "fetched"
-    /\ stakes' = IF At(stakes, epoch + RecOff) = 0 THEN [stakes EXCEPT ![epoch + RecOff] = epoch] ELSE stakes
-    /\ ed' = [epoch |-> pend.agg, key |-> At(init, pend.agg + RetOff), cur |-> pend.agg + RetOff]
-    /\ pc' = "staked" /\ pend' = [pend EXCEPT !.te = epoch]
+    /\ IF EpochRechecked /\ epoch # st.epoch
+       THEN pc' = "idle" /\ pend' = NoPend /\ UNCHANGED <<stakes, ed>>       \* the cycle fails, state kept
+       ELSE /\ stakes' = IF At(stakes, epoch + RecOff) = 0 THEN [stakes EXCEPT ![epoch + RecOff] = epoch] ELSE stakes
+            /\ ed' = [epoch |-> pend.agg, key |-> At(init, pend.agg + RetOff), cur |-> pend.agg + RetOff]
+            /\ pc' = "staked" /\ pend' = [pend EXCEPT !.te = epoch]
     /\ last' = [a |-> "Internal", step |-> "stakes"]
     /\ UNCHANGED <<epoch, imm, init, signed, reg, others, published, st, nextKey, cnt, lagged>>
 
